@@ -1463,6 +1463,12 @@ def simplify_field(e):
             return ag[2][int(idx)]
     if base[0] == 'aggr' and len(base) > 3 and e[2] in (base[3] or []):
         return base[2][base[3].index(e[2])]
+    if base[0] == 'aggr' and len(base) > 3 and base[3] and len(base[3]) == len(base[2]):
+        # the same with names written the other way (statement aggregates carry qualified field names)
+        short_ = [str(n_).rsplit('.', 1)[-1] for n_ in base[3]]
+        nm_ = str(e[2]).rsplit('.', 1)[-1]
+        if nm_ in short_ and short_.count(nm_) == 1:
+            return base[2][short_.index(nm_)]
     if base[0] == 'downcast' and base[1][0] == 'phi' and base[2] in ('Ok', 'Some', 'Err') and e[2].lstrip('#') == '0':
         # (phi(Ok{a} | Err{..} | from_residual(..)) as Ok).0: the downcast selects the branches that build that variant
         ph = base[1]
@@ -1775,6 +1781,16 @@ def resolve_elements(facts, e):
             if src[0] == 'call' and re.search(r'Iterator>?::next$', src[1]) and src[2]:
                 el = iter_element(facts, src[2][0])
                 if el is not None and not (el[0] == 'call' and el[1] == 'elem' and el[2][0][0] in ('loop', 'phi', 'top', 'undef')):
+                    return el
+            if src[0] == 'call' and re.search(r'Iterator>?::find_map$', src[1]) and len(src[2]) == 2:
+                # what find_map hands back is f(x) for *an* element x for which that is Some
+                el = iter_element(facts, src[2][0])
+                r = apply_closure(facts, src[2][1], [el]) if el is not None else None
+                if r is not None:
+                    return simplify_field(('field', ('downcast', r, 'Some'), n[2]) + tuple(n[3:]))
+            if src[0] == 'call' and re.search(r'Iterator>?::find$', src[1]) and len(src[2]) == 2:
+                el = iter_element(facts, src[2][0])
+                if el is not None:
                     return el
         if n[0] == 'field':
             return simplify_field(n)
